@@ -307,7 +307,7 @@ def model_term(inp):
 
 def _mirror_run(inp):
     """(index of the first step the mirror calls unmodelled or None, list of per-step mirror errors)"""
-    import _c09_mirror as M
+    from props import _c09_mirror as M
     s = M.St(inp["fmt"])
     errs = []
     for i, op in enumerate(inp["ops"]):
@@ -332,7 +332,7 @@ def impl_obs(inp, obs):
 # ------------------------------------------------------------------ generator
 
 def _gen_ops(rng, fmt, n, names):
-    import _c09_mirror as M
+    from props import _c09_mirror as M
     s = M.St(fmt)
     ops = []
 
@@ -352,7 +352,7 @@ def _gen_ops(rng, fmt, n, names):
         d = rng.choice(dirs())
         return (d + "/" if d else "") + rng.choice(names)
 
-    weights = (["add"] * 5 + ["mkdir"] * 3 + ["rmk"] * 2 + ["rmf"] * 2 + ["ren"] * 4 + ["mv"] * 3 + ["put"] * 6 +
+    weights = (["add"] * 5 + ["mkdir"] * 4 + ["rmk"] * 2 + ["rmf"] * 2 + ["ren"] * 5 + ["mv"] * 5 + ["put"] * 6 +
                ["chmod"] * 2 + ["osrm"] * 2 + ["osmkdir"] + ["commit"] * 3 + ["revert"] * 2 + ["reopen"])
     guard = 0
     while len(ops) < n and guard < 40 * n:
@@ -363,9 +363,11 @@ def _gen_ops(rng, fmt, n, names):
         elif k in ("mkdir", "osmkdir"):
             op = [k, newchild()]
         elif k == "ren":
-            op = [k, known(), newchild() if rng.random() < 0.8 else known()]
+            src = rng.choice(dirs()[1:] or [known()]) if rng.random() < 0.4 else known()
+            op = [k, src, newchild() if rng.random() < 0.8 else known()]
         elif k == "mv":
-            op = [k, known(), rng.choice(dirs()) if rng.random() < 0.85 else known()]
+            src = rng.choice(dirs()[1:] or [known()]) if rng.random() < 0.4 else known()
+            op = [k, src, rng.choice(dirs()) if rng.random() < 0.85 else known()]
         elif k == "put":
             op = [k, newchild() if rng.random() < 0.5 else known(), rng.randrange(len(CONTENTS))]
         elif k == "chmod":
@@ -418,8 +420,48 @@ def corpus():
     return [{"fmt": f, "ops": o} for f, o in _CORPUS]
 
 
+_PRELUDE = [["mkdir", "a"], ["mkdir", "a/b"], ["put", "a/b/c", 1], ["add", "a/b/c"], ["put", "a/e", 2], ["add", "a/e"],
+            ["mkdir", "d"], ["put", "d/f", 3], ["add", "d/f"], ["commit"]]
+_PATHS = ["a", "a/b", "a/b/c", "a/e", "d", "d/f"]
+
+
+def _structured():
+    """single structural operations on a committed three-level tree (exhaustive over sources and targets)"""
+    mids = []
+    for x in _PATHS:
+        for dd in ("", "a", "a/b", "d"):
+            mids.append([["mv", x, dd]])
+        for y in ("c", "a/c", "d/c", "a/b/d", "d/f"):
+            mids.append([["ren", x, y]])
+        mids.append([["rmk", x]])
+        mids.append([["rmf", x]])
+        mids.append([["osrm", x], ["add", x]])
+    return mids
+
+
+_TAILS = [[["commit"], ["reopen"], ["revert"]],
+          [["revert"], ["commit"]],
+          [["put", "a/b/c", 2], ["chmod", "a/e", True], ["commit"], ["revert"]],
+          [["put", "d/c", 0], ["add", "d/c"], ["revert"]]]
+
+
 def cases(rng, tier):
-    n = 75 if tier == "quick" else 1500
+    mids = _structured()
+    # (1) one structural op, every tail (thorough) / a sample (quick)
+    combos = [(m, t) for m in mids for t in _TAILS]
+    if tier == "quick":
+        combos = rng.sample(combos, 40)
+    for fmt in ("bzr", "git"):
+        for m, t in combos:
+            yield {"fmt": fmt, "ops": _PRELUDE + m + t}
+    # (2) two interacting structural ops (rename into a removed directory, re-add after remove, ...)
+    npairs = 30 if tier == "quick" else 600
+    for _ in range(npairs):
+        m1, m2 = rng.choice(mids), rng.choice(mids)
+        for fmt in ("bzr", "git"):
+            yield {"fmt": fmt, "ops": _PRELUDE + m1 + m2 + rng.choice(_TAILS)}
+    # (3) random sequences steered by the mirror
+    n = 30 if tier == "quick" else 1200
     for i in range(n):
         for fmt in ("bzr", "git"):
             names = NAMES[: rng.choice([3, 4, 4, 6])]
@@ -474,24 +516,49 @@ def oracle(inp, obs):
     return None
 
 
+def _mirror_at(inp, i):
+    """(mirror state after step i, mirror error of step i, index of the first unmodelled step <= i or None)"""
+    from props import _c09_mirror as M
+    s = M.St(inp["fmt"])
+    e = None
+    for j, op in enumerate(inp["ops"][: i + 1]):
+        e = M.step(s, op)
+        if e == "Unmodelled":
+            return s, e, j
+    return s, e, None
+
+
 def finding_matches(fid, inp, obs, why):
+    """Each known finding is recognised by a predicate on the INPUT (evaluated through the mirror of the
+    specification): the failing step must be one where the specification itself says the real code
+    misbehaves (a modelled internal error) or leaves the modelled domain for exactly that reason."""
+    import re
+    from props import _c09_mirror as M
+    m = re.match(r"step (\d+) ", why or "")
+    if not m:
+        return False
+    i = int(m.group(1))
     ops = inp["ops"]
-    kinds = [o[0] for o in ops]
+    if i >= len(ops):
+        return False
+    s, e, cut = _mirror_at(inp, i)
+    fmt = inp["fmt"]
+    cut_op = ops[cut][0] if cut is not None else None
     if fid == "C09-bzr-oserror-subscript":
-        return inp["fmt"] == "bzr" and "TypeError" in why and ("ren" in kinds or "mv" in kinds)
-    if fid == "C09-bzr-add-under-removed":
-        return (inp["fmt"] == "bzr" and ("rmk" in kinds or "rmf" in kinds) and ("add" in kinds or "mkdir" in kinds)
-                and ("all_versioned_paths does not list" in why or "unversioned parent" in why))
-    if fid == "C09-git-revert-keyerror":
-        return inp["fmt"] == "git" and "revert" in kinds and "KeyError" in why
-    if fid == "C09-git-notadir":
-        return inp["fmt"] == "git" and "NotADirectoryError" in why
-    if fid == "C09-git-commit-dirified":
-        return inp["fmt"] == "git" and "status not empty after commit" in why and "osmkdir" in kinds or "mkdir" in kinds and "status not empty after commit" in why and inp["fmt"] == "git"
-    if fid == "C09-git-revert-rename-detect":
-        return inp["fmt"] == "git" and "status not empty after revert" in why
+        return fmt == "bzr" and cut is None and ops[i][0] in ("ren", "mv") and e == "TypeError" and "TypeError" in why
     if fid == "C09-git-oserror":
-        return inp["fmt"] == "git" and "internal error OSError" in why
+        return fmt == "git" and cut is None and ops[i][0] in ("ren", "mv") and e == "OSError" and "OSError" in why
+    if fid == "C09-bzr-add-under-removed":
+        return fmt == "bzr" and cut_op in ("add", "mkdir")
+    if fid == "C09-git-revert-keyerror":
+        return fmt == "git" and cut_op == "revert" and cut == i and "KeyError" in why
+    if fid == "C09-git-revert-rename-detect":
+        return fmt == "git" and cut_op == "revert" and "KeyError" not in why
+    if fid == "C09-git-notadir":
+        return fmt == "git" and cut is None and M.g_notadir(s) and "NotADirectoryError" in why
+    if fid == "C09-git-commit-dirified":
+        return (fmt == "git" and cut is None and ops[i][0] == "commit" and "status not empty after commit" in why
+                and any(M.isdir(s.disk, p) for p in s.index))
     return False
 
 
